@@ -195,10 +195,12 @@ Section Policy.
     end.
 End Policy.
 
-(** a certificate resource in storage: the certificate as CacheManagedCertificate would cache it,
-    and whether handshakeMaintenance returns it as it is (not due for renewal); a stored
-    certificate that is due cannot be renewed with on-demand TLS off: it is removed again *)
-Record stored := Stored { sd_cert : cert; sd_fresh : bool }.
+(** a certificate resource in storage: the certificate as CacheManagedCertificate would cache it;
+    [sd_fresh]: not due for renewal (handshakeMaintenance returns it as it is); [sd_servable]: not
+    expired (fresh implies servable).  A stored certificate that is due cannot be renewed with
+    on-demand TLS off and is removed from the cache again: at once if it has expired (then it is
+    not served), by the background renewal goroutine if it is still valid (it is served) *)
+Record stored := Stored { sd_cert : cert; sd_fresh : bool; sd_servable : bool }.
 
 (** what the environment contributes: idna.Lookup.ToASCII(TrimSpace(ServerName)) (None: error),
     the certificate resources in storage by the name they are stored under, and the eviction
@@ -286,8 +288,9 @@ Section LookupX.
                         then load_from_storage (x_storage e) (x_broken e) nm else None) with
                  | Some x =>                                       (* CacheManagedCertificate *)
                      let s1 := add_cert cap (sd_cert x) (x_victim e) s in
-                     if sd_fresh x then (ROk (sd_cert x), s1)
-                     else (defaulted_result other, remove_cert (sd_cert x) s1)
+                     let s2 := if sd_fresh x then s1 else remove_cert (sd_cert x) s1 in
+                     if sd_servable x then (ROk (sd_cert x), s2)
+                     else (defaulted_result other, s2)
                  | None => (defaulted_result other, s)
                  end
         end
@@ -312,7 +315,7 @@ Section LookupX.
     | None => Env true false None
     | Some nm => Env false (subject_qualifies is_space nm)
                    (match load_from_storage (x_storage e) (x_broken e) nm with
-                    | Some x => if sd_fresh x then Some (sd_cert x) else None
+                    | Some x => if sd_servable x then Some (sd_cert x) else None
                     | None => None end)
     end.
 End LookupX.
